@@ -176,10 +176,9 @@ def rule_b(ctx: Ctx) -> None:
                 'schema_path defaulting to the absolute path of the selection, and report a missing declaration.')
 
 
-def rule_c(ctx: Ctx) -> None:
+def rule_c(ctx: Ctx, rule: str = 'C20.c') -> None:
     """An element that a driver hands to XsdElement.raw_decode directly (path-selected, lazy chunk) gets its own namespace
     context: the decoder establishes it itself, on every path, whatever the level."""
-    rule = 'C20.c'
     f = ctx.idx.func('xmlschema.validators.elements.XsdElement.raw_decode')
     g = cfg_of(ctx, f)
     sets = [n for n, c in call_nodes(g, lambda c: text(c.func) == 'context.converter.set_xmlns_context' and [text(a) for a in c.args] == ['obj', 'context.level'])]
@@ -201,17 +200,16 @@ def rule_c(ctx: Ctx) -> None:
     dom = gg.dominators(kinds='nTF')
     ok = bool(cs) and all(cs[0] in dom[r] for r in rec)
     ctx.ob(rule, 'XsdGroup.raw_decode sets the namespace context of each child before decoding it', gq.loc(), ok, '', key='XsdGroup.raw_decode|xmlns-context')
-    ctx.explain('C20.c: must-pass-through from the entry of XsdElement.raw_decode to every decoder call through '
+    ctx.explain(f'{rule}: must-pass-through from the entry of XsdElement.raw_decode to every decoder call through '
                 'set_xmlns_context(obj, context.level).')
 
 
 LIVE_LIST_MUTATORS = {'append', 'pop', 'clear', 'extend', 'insert', 'remove'}
 
 
-def rule_d(ctx: Ctx) -> None:
+def rule_d(ctx: Ctx, rule: str = 'C20.d') -> None:
     """The ancestor chain that the element selectors update in place is remembered only through a copy: a local that merely
     aliases the live list always compares equal to it, so the per-subtree identity counters are never reset."""
-    rule = 'C20.d'
     idx = ctx.idx
     res = idx.cls('xmlschema.resources.xml_resource.XMLResource')
     # selectors whose parameter is updated in place while they are suspended at a yield
@@ -271,7 +269,7 @@ def rule_d(ctx: Ctx) -> None:
                    'never true again, the identity-constraint counters of a finished subtree are not reset and the part selected by a path '
                    'reports other errors than the whole document', key=f'{q}|snapshot|{text(tg)}|{src}')
     ctx.floor(rule, 'snapshots of a live ancestors list', n, 1)
-    ctx.explain('C20.d: parameters that the generator selectors of XMLResource mutate in place (append/pop/clear) are live lists; '
+    ctx.explain(f'{rule}: parameters that the generator selectors of XMLResource mutate in place (append/pop/clear) are live lists; '
                 'in the schema drivers every local initialised from such a list must be a copy (slice, list(), .copy()).')
 
 
